@@ -241,8 +241,21 @@ func GetAttrString(self Object, key string) (res Object, err error) {
 		}
 	}
 
-	// Look in the instance dictionary if it exists
-	if I, ok := self.(IGetDict); ok {
+	if cls, ok := self.(*Type); ok && cls.Mro != nil {
+		// self is a class (instances of classes have no MRO): look
+		// through the dictionaries of all the classes in its MRO,
+		// not only its own, and bind what was found to the class,
+		// so that an inherited attribute, a classmethod or a
+		// staticmethod can be read on the class itself
+		res = cls.Lookup(key)
+		if res != nil {
+			if I, ok := res.(I__get__); ok {
+				res, err = I.M__get__(None, cls)
+			}
+			return res, err
+		}
+	} else if I, ok := self.(IGetDict); ok {
+		// Look in the instance dictionary if it exists
 		dict := I.GetDict()
 		res, ok = dict[key]
 		if ok {
